@@ -163,7 +163,7 @@ func c04Struct(c *Ctx) {
 		n++
 		r.Add("STRUCT.zero", name, "padding octets are written as zero in a loop", p.Position(fn.Pos()), zeroLoop, "no loop storing 0 into buf: padding keeps the previous buffer contents")
 	}
-	r.Floor("C04 structural rule instances", n, 28)
+	r.Floor("C04 structural rule instances", n, 16)
 }
 
 // ---- C05 ----------------------------------------------------------------------------------------------
@@ -214,7 +214,7 @@ func c05Struct(c *Ctx) {
 		r.Add("STRUCT.effect", name, "has error returns", p.Position(fn.Pos()), len(errBlocks) >= 1, "")
 	}
 	n += delOrderRule(c)
-	r.Floor("C05 effect rule instances", n, 7)
+	r.Floor("C05 effect rule instances", n, 4)
 }
 
 // c05Hooks: validation dominance with range entailment at every insertion into h.Extensions.
